@@ -11,7 +11,9 @@ Required == [
   restart |-> {"all-terminal-after-restart", "pipelines-schedulable-not-running", "same-job-set", "finished-jobs-identical", "second-restart-identical"},
   env |-> {"task-level-wins", "pipeline-level-over-process", "process-level-visible", "undefined-is-unset", "dotenv-file-loaded", "own-variables-rendered"},
   auth |-> {"no-token-401-everywhere", "wrong-secret-401-everywhere", "valid-token-accepted", "no-effect-without-token", "profiling-absent-by-default", "profiling-open-when-enabled"},
-  reload |-> {"edit-detected-on-sigusr1", "running-job-keeps-old-script", "waiting-job-keeps-old-script", "new-job-uses-new-script", "empty-value-env-rename-detected", "unchanged-files-not-reloaded"}
+  reload |-> {"edit-detected-on-sigusr1", "running-job-keeps-old-script", "waiting-job-keeps-old-script", "new-job-uses-new-script", "empty-value-env-rename-detected", "unchanged-files-not-reloaded"},
+  \* reloads that change exactly one field: each takes effect for the jobs scheduled afterwards
+  reload_fields |-> {"fail-fast-stops-sibling", "continue-flag-alone-takes-effect", "appended-script-line-alone-takes-effect", "added-task-alone-takes-effect"}
 ]
 Scenarios == DOMAIN Required
 VARIABLE l
@@ -20,6 +22,7 @@ Next == l < Len(Rows) /\ l' = l + 1
 Spec == Init /\ [][Next]_l
 R == Rows[l]
 FactHolds(p) == (l <= Len(Rows) /\ R.prop = p) => R.ok
+C08_Binary == FactHolds("C08")
 C10_Binary == FactHolds("C10")
 C11_Binary == FactHolds("C11")
 C14_Binary == FactHolds("C14")
